@@ -236,6 +236,10 @@ impl VStore {
         self.sh.st.lock().unwrap().list_order = o;
     }
 
+    pub fn list_order(&self) -> ListOrder {
+        self.sh.st.lock().unwrap().list_order
+    }
+
     /// make every object currently in the store look `by` older
     pub fn age_all(&self, by: chrono::Duration) {
         let metas = self.all_objects();
@@ -748,7 +752,8 @@ impl ObjectStoreProvider for VProvider {
             params.block_size.or(self.block_size),
             None,
             params.use_constant_size_upload_parts,
-            params.list_is_lexically_ordered.unwrap_or(self.list_is_lexically_ordered),
+            // a store must not claim an ordering it does not deliver
+            params.list_is_lexically_ordered.unwrap_or(self.list_is_lexically_ordered) && self.store.list_order() == ListOrder::Lexical,
             8,
             0,
             None,
